@@ -835,6 +835,8 @@ def run(tier: str, seed: int, replay=None) -> int:
         "translator/t_parsefield.py (fail-closed ast translator: parse_field chain, relationship predicates, name builders, mapper-arg conditions -> Gen/ParseField.v)",
         "Orm/SchemaStr.v py_lower/py_startswith as the meaning of str.lower()/str.startswith() on ASCII identifiers",
         "hand-written parts of Orm/Schema.v (facts of an annotation, dataclass field inheritance, constructor contents), tied by comparing ORMatic's containers with `gen` on every generated model",
+        "source pins pins/ormatic.json (set pins/sets/ormatic.json, 52 methods of ormatic.py / wrapped_table.py / sqlalchemy_generator.py / class_diagram.py / "
+        "wrapped_field.py that Orm/Schema.v mirrors and t_parsefield does not regenerate, incl. the absence of a hand-written WrappedTable.__eq__): an edit reopens the correspondence obligation",
         "harness/c06.py: source renderer, regex reading of ColumnConstructor strings, mapper inspection and its canonical encoding",
         "SQLAlchemy / SQLite accept a layer that is statically well-formed: compared on every case, not proved (level: partial)",
     ]
@@ -856,6 +858,8 @@ def run(tier: str, seed: int, replay=None) -> int:
         regen=[("Gen/ParseField.v", lambda: t_parsefield.translate(str(core.REPO)), core.COQ / "Gen" / "ParseField.v")])
     if not model_ok:
         rep.note("model not available; comparing the implementation with the Spec only (search for a failing input)")
+    from translator import pins
+    pins.oblige(rep, str(core.REPO), "ormatic", "the hand-written generator model Orm/Schema.v (gen, table_of, table_fields, parse_one, facts_of)")
     rng = core.Rng(seed)
     findings_seen: Dict[str, int] = {}
     findings = core.load_findings(PROP)
